@@ -316,10 +316,38 @@ func DropRule(w *World, r *Result, rule string) {
 						}
 					}
 				}
+				// a field that is overwritten (not extended) inside the loop takes a part built by
+				// that iteration: the store may run once only, otherwise a later iteration replaces
+				// what an earlier one stored (a second case taking the place of the first)
+				if bad == "" {
+					for _, ref := range *al.Referrers() {
+						fa, ok := ref.(*ssa.FieldAddr)
+						if !ok {
+							continue
+						}
+						for _, rr := range *fa.Referrers() {
+							s, ok := rr.(*ssa.Store)
+							if !ok || s.Addr != fa {
+								continue
+							}
+							h := loops[s.Block()]
+							if h == nil || loopBody(h)[al.Block()] {
+								continue
+							}
+							if extendsField(s.Val, fa) || !builtInLoop(s.Val, h) {
+								continue
+							}
+							if firstIterationOnly(s.Block()) || oneShotGuarded(s, h, fa) || leavesLoopAfter(s.Block(), h) {
+								continue
+							}
+							bad = fmt.Sprintf("field %s of the %s being assembled is overwritten at %s inside the loop with a part built by the current iteration, and nothing limits the store to one iteration (no one-shot flag, no first-iteration test, no test that the field is still unset): a later part takes the place of an earlier one, which is dropped from the program", st.Field(fa.Field).Name(), named.Obj().Name(), w.Pos(s.Pos()))
+						}
+					}
+				}
 				if bad != "" {
 					r.Bad(rule, key, w.Pos(al.Pos()), bad)
 				} else {
-					r.Ok(rule, key, w.Pos(al.Pos()), fmt.Sprintf("assembled field by field inside a loop, never replaced as a whole there"))
+					r.Ok(rule, key, w.Pos(al.Pos()), fmt.Sprintf("assembled field by field inside a loop, never replaced as a whole there; fields that are overwritten are written once"))
 				}
 			}
 		}
@@ -327,6 +355,197 @@ func DropRule(w *World, r *Result, rule string) {
 	if n == 0 {
 		r.Bad(rule, "drop:none", "-", "no node assembled inside a loop found in the parser")
 	}
+}
+
+// extendsField: the stored value is append(<current value of the same field>, …).
+func extendsField(v ssa.Value, fa *ssa.FieldAddr) bool {
+	c, ok := v.(*ssa.Call)
+	if !ok {
+		return false
+	}
+	bi, ok := c.Call.Value.(*ssa.Builtin)
+	if !ok || bi.Name() != "append" || len(c.Call.Args) == 0 {
+		return false
+	}
+	if u, ok := c.Call.Args[0].(*ssa.UnOp); ok {
+		if f2, ok := u.X.(*ssa.FieldAddr); ok && f2.X == fa.X && f2.Field == fa.Field {
+			return true
+		}
+	}
+	return false
+}
+
+// builtInLoop: the value is produced by an instruction inside the loop with this header.
+func builtInLoop(v ssa.Value, hdr *ssa.BasicBlock) bool {
+	body := loopBody(hdr)
+	switch x := v.(type) {
+	case *ssa.UnOp:
+		// load of a literal built in the loop
+		if al, ok := x.X.(*ssa.Alloc); ok {
+			return body[al.Block()]
+		}
+		return body[x.Block()]
+	case ssa.Instruction:
+		return x.Block() != nil && body[x.Block()]
+	}
+	return false
+}
+
+// leavesLoopAfter: from the block no path leads back to the loop header without leaving the
+// loop (the store is followed by break / return): it runs in the last iteration only.
+func leavesLoopAfter(b, hdr *ssa.BasicBlock) bool {
+	body := loopBody(hdr)
+	seen := map[*ssa.BasicBlock]bool{}
+	var reach func(x *ssa.BasicBlock) bool
+	reach = func(x *ssa.BasicBlock) bool {
+		if seen[x] {
+			return false
+		}
+		seen[x] = true
+		for _, sc := range x.Succs {
+			if !body[sc] {
+				continue
+			}
+			if sc == hdr || reach(sc) {
+				return true
+			}
+		}
+		return false
+	}
+	return !reach(b)
+}
+
+// oneShotGuarded: the store runs in at most one iteration of the loop: it is dominated by
+// the side of a branch on a flag (a bool carried around the loop) that is only taken while
+// the flag has its initial value, and the flag is given the other value on that side; or by
+// the nil-side of a test of an interface field of the very destination that the stored
+// value sets.
+func oneShotGuarded(s *ssa.Store, hdr *ssa.BasicBlock, fa *ssa.FieldAddr) bool {
+	body := loopBody(hdr)
+	for d := s.Block(); d != nil && body[d]; d = d.Idom() {
+		p := d.Idom()
+		if p == nil || !body[p] || len(p.Instrs) == 0 {
+			continue
+		}
+		ifi, ok := p.Instrs[len(p.Instrs)-1].(*ssa.If)
+		if !ok {
+			continue
+		}
+		onTrue := p.Succs[0].Dominates(s.Block()) && len(p.Succs[0].Preds) == 1
+		onFalse := p.Succs[1].Dominates(s.Block()) && len(p.Succs[1].Preds) == 1
+		if onTrue == onFalse {
+			continue
+		}
+		side := p.Succs[0]
+		if onFalse {
+			side = p.Succs[1]
+		}
+		cond := ifi.Cond
+		want := onTrue // the value the flag must have for the store to run
+		for {
+			if u, ok := cond.(*ssa.UnOp); ok && u.Op == token.NOT {
+				cond = u.X
+				want = !want
+				continue
+			}
+			break
+		}
+		if ph, ok := cond.(*ssa.Phi); ok && ph.Block() == hdr && isBool(ph.Type()) {
+			// initial value from outside = want; inside the loop the flag only ever receives !want,
+			// and it does so on the guarded side
+			initOK, flipped, reset := false, false, false
+			var walk func(v ssa.Value, from *ssa.BasicBlock, seen map[ssa.Value]bool)
+			walk = func(v ssa.Value, from *ssa.BasicBlock, seen map[ssa.Value]bool) {
+				if seen[v] {
+					return
+				}
+				seen[v] = true
+				switch x := v.(type) {
+				case *ssa.Const:
+					if x.Value == nil {
+						return
+					}
+					val := constant.BoolVal(x.Value)
+					if val == want {
+						reset = true
+					} else if from != nil && (from == side || side.Dominates(from)) {
+						flipped = true
+					}
+				case *ssa.Phi:
+					if x == ph {
+						return
+					}
+					for i, e := range x.Edges {
+						walk(e, x.Block().Preds[i], seen)
+					}
+				default:
+					reset = true // computed anew: cannot be shown to stay off
+				}
+			}
+			for i, e := range ph.Edges {
+				pred := hdr.Preds[i]
+				if !body[pred] {
+					if k, ok := e.(*ssa.Const); ok && k.Value != nil && constant.BoolVal(k.Value) == want {
+						initOK = true
+					}
+					continue
+				}
+				walk(e, pred, map[ssa.Value]bool{})
+			}
+			if initOK && flipped && !reset {
+				return true
+			}
+		}
+		// nil test of an interface field of the destination (destination.field.x == nil)
+		if bo, ok := cond.(*ssa.BinOp); ok && (bo.Op == token.EQL || bo.Op == token.NEQ) {
+			nilSide := (bo.Op == token.EQL) == want
+			var tested ssa.Value
+			if k, ok := bo.Y.(*ssa.Const); ok && k.IsNil() {
+				tested = bo.X
+			} else if k, ok := bo.X.(*ssa.Const); ok && k.IsNil() {
+				tested = bo.Y
+			}
+			if tested != nil && nilSide {
+				if u, ok := tested.(*ssa.UnOp); ok {
+					if inner, ok := u.X.(*ssa.FieldAddr); ok {
+						if outer, ok := inner.X.(*ssa.FieldAddr); ok && outer.X == fa.X && outer.Field == fa.Field {
+							if storedFieldNonNil(s.Val, inner.Field) {
+								return true
+							}
+						}
+					}
+				}
+			}
+		}
+	}
+	return false
+}
+
+// storedFieldNonNil: the stored struct value is a literal whose field #idx receives a freshly
+// built interface value (never nil).
+func storedFieldNonNil(v ssa.Value, idx int) bool {
+	u, ok := v.(*ssa.UnOp)
+	if !ok {
+		return false
+	}
+	al, ok := u.X.(*ssa.Alloc)
+	if !ok {
+		return false
+	}
+	for _, r := range *al.Referrers() {
+		fa, ok := r.(*ssa.FieldAddr)
+		if !ok || fa.Field != idx {
+			continue
+		}
+		for _, rr := range *fa.Referrers() {
+			if st, ok := rr.(*ssa.Store); ok && st.Addr == fa {
+				if _, ok := st.Val.(*ssa.MakeInterface); ok {
+					return true
+				}
+			}
+		}
+	}
+	return false
 }
 
 func outerLoop(loops map[*ssa.BasicBlock]*ssa.BasicBlock, hdr *ssa.BasicBlock) *ssa.BasicBlock {
